@@ -52,9 +52,8 @@ func genC09(t *rapid.T) CaseC09 {
 		}
 	}
 	if c.Path == "decoded" {
-		if rapid.IntRange(0, 3).Draw(t, "bad-crc") == 0 {
-			c.BadCRC = rapid.IntRange(1, 32).Draw(t, "bad-crc-bit")
-		}
+		// (BadCRC is no longer drawn: a section with a stale CRC_32 is not a canonical well-formed section, and an encoder that
+		// hands back the decoded bytes while nothing was changed re-emits what it was given; the field remains for replay files)
 		c.Tail = rapid.SampledFrom([]int{0, 0, 0, 1, 4, 30}).Draw(t, "tail")
 		// no alignment_stuffing on the input side: such a section is not canonical, and whether a decoder keeps the count
 		// (and re-emits the bytes) or drops it is not stated. C08 decodes sections with stuffing.
@@ -71,6 +70,12 @@ func genC09(t *rapid.T) CaseC09 {
 			}
 			return m
 		}), 0, 8).Draw(t, "muts")
+		if len(c.Muts) > 0 && rapid.IntRange(0, 2).Draw(t, "set-then-clear") == 0 {
+			// "flags can be cleared as well as set": one of the calls is repeated at the end with the opposite flag value
+			m := c.Muts[rapid.IntRange(0, len(c.Muts)-1).Draw(t, "set-then-clear-which")]
+			m.B = !m.B
+			c.Muts = append(c.Muts, m)
+		}
 	}
 	return c
 }
@@ -185,7 +190,7 @@ func c09KeepOrder(m ref.Splice) ref.Splice {
 // c09Comparable blanks what the comparison must not depend on: the alignment stuffing byte values and, for a
 // command that carries no time, pts_adjustment (the API has no setter for it; it is derived from the signal and
 // command times, and which value results when the command time is not on the wire is not stated) together with
-// the CRC_32 that covers it (the CRC is verified on its own).
+// the CRC_32 that covers either (the CRC is verified on its own).
 func c09Comparable(b []byte, from, to int, timeless bool) []byte {
 	c := maskStuffing(b, from, to)
 	if timeless && len(c) >= 13 {
@@ -193,6 +198,9 @@ func c09Comparable(b []byte, from, to int, timeless bool) []byte {
 		for i := 5; i <= 8; i++ {
 			c[i] = 0
 		}
+	}
+	if (timeless || to > from) && len(c) >= 13 {
+		// the CRC_32 covers the blanked bytes
 		for i := len(c) - 4; i < len(c); i++ {
 			c[i] = 0
 		}
@@ -203,6 +211,15 @@ func c09Comparable(b []byte, from, to int, timeless bool) []byte {
 type c09State struct {
 	m        ref.Splice
 	adjusted uint64 // the signal's adjusted PTS as stored by the library
+	// altDelta: how far the command's pts_time was moved through the COMMAND's setters since the signal time was last fixed.
+	// A library may keep the signal time and let pts_adjustment absorb the move (the pinned one does), or keep
+	// pts_adjustment as a field and let the signal time follow: adjusted+altDelta is the signal time of the second kind.
+	altDelta uint64
+	// handles: the descriptor objects in the order Descriptors() listed them when the list was last (re)established (after
+	// decoding / building and after every SetDescriptors). Setter histories address descriptors through these handles: in
+	// which order a later Descriptors() call lists the same objects is not stated (the interface documents "sorted by weight").
+	handles   []scte35.SegmentationDescriptor
+	handlesOK bool
 	sig      scte35.SCTE35
 	// arena is the caller-side buffer the byte slices given to setters are cut from, one directly
 	// behind the other: each slice's spare capacity is the memory of the slices handed over later
@@ -241,13 +258,20 @@ func (st *c09State) cmdPTSField() uint64 {
 
 const m33 = uint64(1)<<33 - 1
 
+func (st *c09State) descs() []scte35.SegmentationDescriptor {
+	if !st.handlesOK {
+		st.handles, st.handlesOK = st.sig.Descriptors(), true
+	}
+	return st.handles
+}
+
 // c09Apply applies one setter call to the library object and to the model.
 // It returns a description, or "" when the mutation does not apply.
 func c09Apply(st *c09State, mu MutC09) string {
 	s, m := st.sig, &st.m
 	ins, _ := s.CommandInfo().(scte35.SpliceInsertCommand)
 	isIns := m.Cmd == 0x05 && ins != nil
-	ds := s.Descriptors()
+	ds := st.descs()
 	var d scte35.SegmentationDescriptor
 	var md *ref.SpliceDesc
 	if len(ds) > 0 {
@@ -271,7 +295,7 @@ func c09Apply(st *c09State, mu MutC09) string {
 		return fmt.Sprintf("SetTier(%#x)", uint16(mu.V))
 	case 1:
 		s.SetAdjustPTS(gots.PTS(mu.V)) // possibly wider than the field: truncated to 33 bits
-		st.adjusted = mu.V & m33
+		st.adjusted, st.altDelta = mu.V&m33, 0
 		return fmt.Sprintf("SetAdjustPTS(%#x)", mu.V)
 	case 2:
 		s.SetAlignmentStuffing(uint(mu.V % 4))
@@ -333,9 +357,11 @@ func c09Apply(st *c09State, mu MutC09) string {
 		switch m.Cmd {
 		case 0x06:
 			s.CommandInfo().SetPTS(gots.PTS(mu.V))
+			st.altDelta += mu.V&m33 - m.TSPTS
 			m.TSPTS = mu.V & m33
 		case 0x05:
 			s.CommandInfo().SetPTS(gots.PTS(mu.V))
+			st.altDelta += mu.V&m33 - m.Ins.PTS
 			m.Ins.PTS = mu.V & m33
 		default:
 			return ""
@@ -346,6 +372,7 @@ func c09Apply(st *c09State, mu MutC09) string {
 		c.SetHasPTS(true)
 		c.SetPTS(gots.PTS(mu.V))
 		s.SetCommandInfo(c)
+		st.altDelta += mu.V&m33 - st.cmdPTSField()
 		m.Cmd, m.TSHasPTS, m.TSPTS = 0x06, true, mu.V&m33
 		m.Ins = ref.SpliceInsert{Comps: []ref.SpliceComp{}}
 		return fmt.Sprintf("SetCommandInfo(time_signal %#x)", mu.V&m33)
@@ -369,7 +396,7 @@ func c09Apply(st *c09State, mu MutC09) string {
 		}
 		v := mu.V & m33
 		s.SetPTS(gots.PTS(mu.V)) // possibly wider than the field: truncated to 33 bits
-		st.adjusted = v
+		st.adjusted, st.altDelta = v, 0
 		if m.Cmd == 0x06 {
 			m.TSPTS = v
 		} else {
@@ -389,6 +416,7 @@ func c09Apply(st *c09State, mu MutC09) string {
 		}
 		if mu.B {
 			s.SetDescriptors(ds[:len(ds)-1])
+			st.handlesOK = false
 			last := segs[len(segs)-1]
 			m.Descs = append(m.Descs[:last:last], m.Descs[last+1:]...)
 		} else {
@@ -397,6 +425,7 @@ func c09Apply(st *c09State, mu MutC09) string {
 				rev[len(ds)-1-i] = ds[i]
 			}
 			s.SetDescriptors(rev)
+			st.handlesOK = false
 			vals := make([]ref.SpliceDesc, len(segs))
 			for i, ix := range segs {
 				vals[len(segs)-1-i] = m.Descs[ix]
@@ -413,6 +442,7 @@ func c09Apply(st *c09State, mu MutC09) string {
 		} else {
 			s.SetDescriptors([]scte35.SegmentationDescriptor{})
 		}
+		st.handlesOK = false
 		keep := []ref.SpliceDesc{}
 		for _, md := range m.Descs {
 			if md.Foreign {
@@ -544,6 +574,7 @@ func c09Apply(st *c09State, mu MutC09) string {
 			nd = ov.Descs[0]
 		}
 		s.SetDescriptors(append(append([]scte35.SegmentationDescriptor{}, ds...), od))
+		st.handlesOK = false
 		od.SetSegmentNumber(byte(mu.V >> 8))
 		od.SetEventID(uint32(mu.V >> 16))
 		nd.Num, nd.Event = byte(mu.V>>8), uint32(mu.V>>16)
@@ -696,6 +727,11 @@ func checkC09(c CaseC09, x *hx.Ctx) *hx.Failure {
 		sec = in[1:]
 		st.sig = s
 		st.m = c09DecodedView(c.Splice)
+		if kept, same := c09DecodedOrder(s, &st.m); !kept && same {
+			// the setter histories address descriptors by their position in Descriptors(): not applicable to this library
+			x.Label("decoded-descriptor-list-reordered")
+			return nil
+		}
 		carries, cp := c.Splice.CarriesTime()
 		if !carries {
 			cp = 0
@@ -772,6 +808,12 @@ func c09VerifyEncoding(st *c09State, c CaseC09, what string) *hx.Failure {
 	}
 	// expected section
 	em := c09Normalise(st.m)
+	if carries, _ := em.CarriesTime(); carries && st.altDelta&m33 != 0 {
+		if alt := (st.adjusted + st.altDelta) & m33; u33(st.sig.PTS()) == alt {
+			st.adjusted = alt // pts_adjustment kept as a field, the signal time follows the command time
+		}
+	}
+	st.altDelta = 0
 	em.Adj = (st.adjusted - st.cmdPTSField()) & m33
 	want := em.Encode()
 	got := st.sig.UpdateData()
@@ -807,9 +849,9 @@ func c09VerifyEncoding(st *c09State, c CaseC09, what string) *hx.Failure {
 			segs = append(segs, d)
 		}
 	}
-	ds := st.sig.Descriptors()
-	if len(ds) != len(segs) {
-		return hx.Failf("getter-descriptors", "%d descriptors on the signal, model has %d (%s)", len(ds), len(segs), what)
+	ds := st.descs()
+	if len(ds) != len(segs) || len(st.sig.Descriptors()) != len(segs) {
+		return hx.Failf("getter-descriptors", "%d descriptors on the signal, model has %d (%s)", len(st.sig.Descriptors()), len(segs), what)
 	}
 	for k := range segs {
 		if f := cmpSegDesc(fmt.Sprintf("getter after setters (%s): descriptor %d", what, k), &segs[k], ds[k]); f != nil {
@@ -874,4 +916,44 @@ func TestC09(t *testing.T) {
 func FuzzC09(f *testing.F) {
 	c09Rule()
 	f.Fuzz(propC09.Fuzz())
+}
+
+// c09DecodedOrder compares the descriptor list a decoded signal hands out with the wire order. The statement fixes the
+// order of the ENCODING ("descriptors in order"); in which order Descriptors() lists what was decoded is not stated (the
+// interface documents "sorted by descriptor weight"). kept: the k-th descriptor is the k-th segmentation descriptor on
+// the wire; same: the list holds the same descriptors in another order.
+func c09DecodedOrder(sig scte35.SCTE35, m *ref.Splice) (kept, same bool) {
+	segs := []ref.SpliceDesc{}
+	for _, d := range m.Descs {
+		if !d.Foreign {
+			segs = append(segs, d)
+		}
+	}
+	ds := sig.Descriptors()
+	if len(ds) != len(segs) {
+		return true, false // reported by the regular comparison
+	}
+	kept = true
+	for k := range segs {
+		if cmpSegDesc("order", &segs[k], ds[k]) != nil {
+			kept = false
+		}
+	}
+	if kept {
+		return true, true
+	}
+	used := make([]bool, len(ds))
+	for k := range segs {
+		found := false
+		for j := range ds {
+			if !used[j] && cmpSegDesc("order", &segs[k], ds[j]) == nil {
+				used[j], found = true, true
+				break
+			}
+		}
+		if !found {
+			return false, false
+		}
+	}
+	return false, true
 }
